@@ -1,9 +1,11 @@
 """C03 (crypto core level)."""
 from ..core import Script
 from .. import coregen
+from .. import nodegen
+from . import _nodecommon
 
 ID = "C03"
-SUITES = ["core"]
+SUITES = ["core", "node"]
 LEAN_MODULES = ["VpnCloud.Proofs.C03"]
 THEOREMS = ["VpnCloud.Proofs.C03." + n for n in ("window_refines", "decrypt_authentic", "everySecond_slots", "threshold_mono", "dies_in_two_ticks", "newest_always_accepted", "any_order_inside_window")]
 BATCH = 100
@@ -40,7 +42,15 @@ def classify(script, result):
 
 
 def gen(tier, rng):
-    return coregen.core_scripts(tier, rng, ID)
+    # node level: the window is driven by PeerCrypto::every_second / GenericCloud::crypto_housekeep once per second for every peer, also on the
+    # seconds in which a rotation message is sent; every payload datagram is replayed after the receiver has ticked twice and three times
+    r = rng.fork("node")
+    yield nodegen.long_session_script(r, "node-window-0", 260, drop_at=(), replay_age=(2, 3))
+    if tier == "thorough":
+        for i in range(3):
+            yield nodegen.long_session_script(r, "node-window-%d" % (i + 1), 500, drop_at=(r.range(100, 400),), replay_age=(2, r.range(3, 6)))
+    for x in coregen.core_scripts(tier, rng, ID):
+        yield x
 RULE = ("suite core: every interleaving of {seal next, deliver any earlier datagram (again), tick} up to depth 6 (quick) / 9 (thorough) over up to 3/5 "
         "datagrams, random histories up to 80/400 steps with key rotations and mutations, three ciphers; the reference monitor computes the "
         "threshold from the recorded history only; distinct non-trivial = distinct (mutation kind, outcome, length class)")
@@ -49,3 +59,5 @@ LEVEL_TEXT = EXPLANATION
 LEVEL_NOTE = "the only external assumption is authenticity of the AEAD (C02)"
 TECHNIQUE = "Lean 4 proof by induction over histories (invariant min/nextMin/seen = thresholds of the history) + differential correspondence"
 DESIGN_REF = "DESIGN.md section 5, C03"
+
+obs_class, nontrivial_key = _nodecommon.with_node(obs_class, nontrivial_key)
